@@ -347,7 +347,7 @@ Proof.
   rewrite bytes_eqb_neq.
   2:{ unfold not_xmlns in Hx. destruct (list_eq_dec N.eq_dec (Cst.a_name a) [120; 109; 108; 110; 115]); [discriminate|].
       exact n. }
-  reflexivity.
+  rewrite ?andb_false_r. reflexivity.
 Qed.
 
 Lemma attrs_evs more : forall attrs q c,
@@ -589,8 +589,8 @@ Lemma start_tag_ok p name attrs ws_end empty post c :
     (let! c1 := evs context tok_ev (start_toks p name attrs) c in tok_ev (end_tok q' empty) c1) = Ok c' /\
     Step0 c c' [(Some (c_parent_id c), KElement None (sl (p + 1) (p + 1 + blen name)) ar (1, 1))]
           (map ad_of (tas (p + 1 + blen name) attrs)) /\
-    km (d_attrs (c_doc c')) (Some (c_parent_id c), KElement None (sl (p + 1) (p + 1 + blen name)) ar (1, 1))
-       (c_parent_id c, Cst.VElem name (map (fun a => (Cst.a_name a, Cst.a_value a)) attrs) 0) /\
+    (forall m, km (d_attrs (c_doc c')) (Some (c_parent_id c), KElement None (sl (p + 1) (p + 1 + blen name)) ar (1, 1))
+       (c_parent_id c, Cst.VElem name (map (fun a => (Cst.a_name a, Cst.a_value a)) attrs) m)) /\
     CI c' /\ c_after_text c' = [] /\ tn_set c' /\
     if empty
     then c_parent_id c' = c_parent_id c /\ c_parent_prefixes c' = c_parent_prefixes c
@@ -631,9 +631,9 @@ Proof.
   set (A := d_attrs (c_doc c)). set (T := tas (p + 1 + blen name) attrs).
   set (ar := attr_range A T).
   set (kind := KElement None (sl (p + 1) (p + 1 + blen name)) ar (1, 1)).
-  assert (Hkm : forall ext, km ((A ++ map ad_of T) ++ ext) (Some (c_parent_id c), kind)
-                 (c_parent_id c, Cst.VElem name (map (fun a => (Cst.a_name a, Cst.a_value a)) attrs) 0)).
-  { intros ext. apply km_ext. split; [reflexivity|]. cbn [snd kind].
+  assert (Hkm : forall m ext, km ((A ++ map ad_of T) ++ ext) (Some (c_parent_id c), kind)
+                 (c_parent_id c, Cst.VElem name (map (fun a => (Cst.a_name a, Cst.a_value a)) attrs) m)).
+  { intros m ext. apply km_ext. split; [reflexivity|]. cbn [snd kind].
     split; [reflexivity|]. split; [apply (W_slice _ _ _ _ HW1)|]. split.
     - unfold ar. rewrite attrs_list_new. unfold T.
       clear - Tn Tv. revert Tn Tv. generalize (tas (p + 1 + blen name) attrs). intros L. revert L.
@@ -654,7 +654,7 @@ Proof.
       - reflexivity.
       - clear. induction T; constructor; [reflexivity|assumption]. }
     split; [exact S|]. split.
-    { cbn. rewrite <- (app_nil_r (A ++ map ad_of T)). apply Hkm. }
+    { intros m. cbn. rewrite <- (app_nil_r (A ++ map ad_of T)). apply Hkm. }
     split.
     { eapply CI_intro; [exact I|exact S| | | | |].
       - cbn. apply (ci_pp _ I).
@@ -676,7 +676,7 @@ Proof.
       - reflexivity.
       - clear. induction T; constructor; [reflexivity|assumption]. }
     split; [exact S|]. split.
-    { cbn. rewrite <- (app_nil_r (A ++ map ad_of T)). apply Hkm. }
+    { intros m. cbn. rewrite <- (app_nil_r (A ++ map ad_of T)). apply Hkm. }
     split.
     { eapply CI_intro; [exact I|exact S| | | | |].
       - cbn. destruct (c_parent_prefixes c); discriminate.
@@ -748,3 +748,9 @@ Proof.
 Qed.
 
 End Build.
+
+Print Assumptions tok_comment.
+Print Assumptions tok_pi.
+Print Assumptions tok_text.
+Print Assumptions start_tag_ok.
+Print Assumptions close_tag_ok.
